@@ -258,6 +258,9 @@ macro_rules! define_gfgen { ($typename:ident, $fieldparams:ident, $submod:ident,
 
         #[inline]
         pub fn set_cond(&mut self, a: &Self, ctl: u32) {
+            // Barrier: prevent the compiler from turning the masking below
+            // into a conditional jump on the (possibly secret) control word.
+            let ctl = core::hint::black_box(ctl);
             for i in 0..Self::N {
                 self.0[i] ^= ctl & (self.0[i] ^ a.0[i]);
             }
@@ -272,6 +275,9 @@ macro_rules! define_gfgen { ($typename:ident, $fieldparams:ident, $submod:ident,
 
         #[inline]
         pub fn cswap(a: &mut Self, b: &mut Self, ctl: u32) {
+            // Barrier: prevent the compiler from turning the masking below
+            // into a conditional jump on the (possibly secret) control word.
+            let ctl = core::hint::black_box(ctl);
             for i in 0..Self::N {
                 let t = ctl & (a.0[i] ^ b.0[i]);
                 a.0[i] ^= t;
@@ -427,7 +433,7 @@ macro_rules! define_gfgen { ($typename:ident, $fieldparams:ident, $submod:ident,
         /// Halve this value.
         #[inline]
         pub fn set_half(&mut self) {
-            let m = (self.0[0] & 1).wrapping_neg();
+            let m = core::hint::black_box((self.0[0] & 1).wrapping_neg());
             let (mut dd, mut cc) = addcarry_u32(
                 self.0[0], m & Self::MODULUS[0], 0);
             dd >>= 1;
@@ -633,7 +639,7 @@ macro_rules! define_gfgen { ($typename:ident, $fieldparams:ident, $submod:ident,
 
             // Add p (at most twice) as long as the value is negative.
             for _ in 0..2 {
-                let m = sgnw(hi);
+                let m = core::hint::black_box(sgnw(hi));
                 let mut cc = 0;
                 for i in 0..Self::N {
                     let (d, ee) = addcarry_u32(
@@ -852,7 +858,7 @@ macro_rules! define_gfgen { ($typename:ident, $fieldparams:ident, $submod:ident,
                 for _ in 0..15 {
                     let a_odd = (xa & 1).wrapping_neg();
                     let (_, cc) = subborrow_u32(xa, xb, 0);
-                    let swap = a_odd & (cc as u32).wrapping_neg();
+                    let swap = core::hint::black_box(a_odd & (cc as u32).wrapping_neg());
                     let t1 = swap & (xa ^ xb);
                     xa ^= t1;
                     xb ^= t1;
@@ -901,7 +907,7 @@ macro_rules! define_gfgen { ($typename:ident, $fieldparams:ident, $submod:ident,
             for _ in 0..Self::NUM2 {
                 let a_odd = (xa & 1).wrapping_neg();
                 let (_, cc) = subborrow_u32(xa, xb, 0);
-                let swap = a_odd & (cc as u32).wrapping_neg();
+                let swap = core::hint::black_box(a_odd & (cc as u32).wrapping_neg());
                 let t1 = swap & (xa ^ xb);
                 xa ^= t1;
                 xb ^= t1;
@@ -923,7 +929,7 @@ macro_rules! define_gfgen { ($typename:ident, $fieldparams:ident, $submod:ident,
 
             // If y != 0 then b = 1 at this point. If y == 0, then we
             // force the result to zero.
-            let w = !y.iszero();
+            let w = core::hint::black_box(!y.iszero());
             for i in 0..Self::N {
                 self.0[i] &= w;
             }
@@ -1063,7 +1069,7 @@ macro_rules! define_gfgen { ($typename:ident, $fieldparams:ident, $submod:ident,
                 for _ in 0..13 {
                     let a_odd = (xa & 1).wrapping_neg();
                     let (_, cc) = subborrow_u32(xa, xb, 0);
-                    let swap = a_odd & (cc as u32).wrapping_neg();
+                    let swap = core::hint::black_box(a_odd & (cc as u32).wrapping_neg());
                     ls ^= swap & ((xa & xb) >> 1);
                     let t1 = swap & (xa ^ xb);
                     xa ^= t1;
@@ -1093,7 +1099,7 @@ macro_rules! define_gfgen { ($typename:ident, $fieldparams:ident, $submod:ident,
                 for _ in 0..2 {
                     let a_odd = (xa & 1).wrapping_neg();
                     let (_, cc) = subborrow_u32(xa, xb, 0);
-                    let swap = a_odd & (cc as u32).wrapping_neg();
+                    let swap = core::hint::black_box(a_odd & (cc as u32).wrapping_neg());
                     ls ^= swap & ((a0 & b0) >> 1);
                     let t1 = swap & (xa ^ xb);
                     xa ^= t1;
@@ -1140,7 +1146,7 @@ macro_rules! define_gfgen { ($typename:ident, $fieldparams:ident, $submod:ident,
             for _ in 0..Self::NUM2 {
                 let a_odd = (xa & 1).wrapping_neg();
                 let (_, cc) = subborrow_u32(xa, xb, 0);
-                let swap = a_odd & (cc as u32).wrapping_neg();
+                let swap = core::hint::black_box(a_odd & (cc as u32).wrapping_neg());
                 ls ^= swap & ((xa & xb) >> 1);
                 let t1 = swap & (xa ^ xb);
                 xa ^= t1;
